@@ -71,7 +71,7 @@ def make(shape: Dict[str, Any]) -> Any:
             loop.advance_to(t0 + off)
             if kind == 'query':
                 src_port = payload.get('port', 5353)
-                msg = mk_query(loop.now_ms, [Q(n, t, qu) for n, t, qu in payload['q']], [], ('10.0.0.9', src_port), data=f'q{best}'.encode())
+                msg = mk_query(loop.now_ms, [Q(n, t, qu) for n, t, qu in payload['q']], [], ('10.0.0.9', src_port), truncated=payload.get('tc', False), data=f'q{best}'.encode())
                 if zc.registry.has_entries:  # as AsyncListener.datagram_received does
                     proto.handle_query_or_defer(msg, '10.0.0.9', src_port, proto.transport, ())
             else:
@@ -142,6 +142,7 @@ SRVQ = {'q': [(N1, SRV, False)]}
 QUQ = {'q': [(T1, PTR, True)]}
 AQ = {'q': [('alpha.local.', A, False), ('alpha.local.', AAAA, False)]}
 LEGACY = {'q': [(T1, PTR, False)], 'port': 40000}
+TCQ = {'q': [(T1, PTR, False)], 'tc': True}  # held 400..500 ms for continuation packets
 
 QUICK = {
     'quiet-one': sh(registry=['S1'], action='unregister:S1'),
@@ -161,6 +162,8 @@ QUICK = {
     'ptr-query-twice': sh(registry=['S1'], action='unregister:S1', queries=[PTRQ, PTRQ], offset_max=400),
     'quiet-recased-object': sh(registry=['S1'], action='unregister-recased:S1'),
     'ptr-query-recased-object': sh(registry=['S1', 'S3'], action='unregister-recased:S1', queries=[PTRQ]),
+    'tc-query-pending': sh(registry=['S1'], action='unregister:S1', queries=[TCQ], offset_max=800),
+    'tc-query-pending-shared': sh(registry=['S1', 'S2'], action='unregister:S1', queries=[TCQ], offset_max=800),
 }
 THOROUGH = {
     'address-query-shared': sh(registry=['S1', 'S2'], action='unregister:S1', queries=[AQ]),
@@ -191,7 +194,7 @@ META = {
         'AsyncListener.handle_query_or_defer', 'QueryHandler.handle_assembled_query/async_response', 'MulticastOutgoingQueue.async_add/async_ready',
     ],
     'bounds': {'t0': [5000, 2**40], 'query / withdrawal offsets ms': [0, 2000], 'jitter': 'full intervals', 'sighting age ms': [0, 1500], 'queries': '<= 2', 'services': '<= 2'},
-    'outside': ['close() of the whole instance (C17)', 'more than two services / two queries', 'truncated query trains pending at withdrawal'],
+    'outside': ['close() of the whole instance (C17)', 'more than two services / two queries', 'truncated trains of more than one packet pending at withdrawal'],
     'stubs': env.STUBS,
     'float_sites': [],
     'assumptions': ['CrossHair 0.0.110 / z3 5.1.0', 'timers fire exactly on time'],
